@@ -66,6 +66,11 @@ func runC14(res *lib.Result, tier string, seed int64, args []string) error {
 			base = genScopeProgram(r)
 			res.Dist("program.non-unique-names")
 		}
+		multiG := pi%3 == 0
+		if multiG {
+			// globals defined as targets of a multiple assignment, also targets without a value of their own
+			base = "abM1, abM2 = pcall(print)\nacM3, acM4 = 1\nbaM5, xM6 = 1, 2\n" + base
+		}
 		lines := strings.Split(strings.TrimRight(base, "\n"), "\n")
 		for k := 0; k < nPos; k++ {
 			at := r.Intn(len(lines) + 1)
@@ -217,6 +222,13 @@ func runC14(res *lib.Result, tier string, seed int64, args []string) error {
 				t := strings.TrimSpace(l)
 				for _, g := range []string{"abG1", "acG2", "baG3", "xg", "gfun"} {
 					if (strings.HasPrefix(t, g+" = ") || strings.HasPrefix(t, "function "+g+"(")) && strings.HasPrefix(g, prefix) && !offered[g] {
+						missing = append(missing, "global "+g)
+					}
+				}
+			}
+			if multiG {
+				for _, g := range []string{"abM1", "abM2", "acM3", "acM4", "baM5", "xM6"} {
+					if strings.HasPrefix(g, prefix) && !offered[g] {
 						missing = append(missing, "global "+g)
 					}
 				}
